@@ -44,6 +44,8 @@ def run_one(suite, plan):
     pristine post-import state of the code under test (process-global state leaking from one
     simulated run into the next would make replay depend on what ran before).  The child has a
     wall watchdog; the parent kills a child that misses it.  Returns Report."""
+    from .gen_solver import finalise_plan
+    finalise_plan(plan)
     if os.environ.get("VERIF_NOFORK"):
         return _check_in_child(suite, plan)
     r, w = os.pipe()
